@@ -1055,7 +1055,7 @@ protected:
           ", utilization: " + std::to_string(static_cast<int>(_threadPool.getQueueUtilization())) +
           "%)");
         sendErrorResponse(sid, 503, "Service Unavailable",
-                          "Server overloaded - please retry later");
+                          "Server overloaded - please retry later", isHeadRequest(requestData));
       }
       else if (_threadPool.isUnderHighLoad())
       {
@@ -1133,6 +1133,10 @@ protected:
       shutdownRes.body = "Server Shutting Down";
       shutdownRes.setHeader("Content-Length", std::to_string(shutdownRes.body.size()));
       shutdownRes.setHeader("Connection", "close");
+      if (isHeadRequest(requestData))
+      {
+        shutdownRes.body.clear(); // RFC 9110 §9.3.2: no content in a response to HEAD
+      }
 
       auto shutdownResponseData = std::make_shared<std::string>(shutdownRes.toWireFormat());
       // SR-7: sendAsync fires its completion synchronously on this thread while
@@ -1625,6 +1629,10 @@ protected:
           errorRes.setHeader("Connection", "close"); // this path closes the socket after sending
           errorRes.body = getStatusText(errStatus);
           errorRes.setHeader("Content-Length", std::to_string(errorRes.body.size()));
+          if (isHeadRequest(requestData))
+          {
+            errorRes.body.clear(); // RFC 9110 §9.3.2: no content in a response to HEAD
+          }
 
           auto errorResponseData = std::make_shared<std::string>(errorRes.toWireFormat());
           _transport->sendAsync(
@@ -1909,9 +1917,20 @@ protected:
     }
   }
 
+  /// \brief Does the raw request carry the method HEAD? Decided from the bytes
+  /// of the request line, so it is available where the request was never parsed
+  /// (parse failure, shutdown, pool overflow). RFC 9110 §9.3.2: a response to
+  /// HEAD has the header section of the GET response and no content.
+  static bool isHeadRequest(const std::string &requestData)
+  {
+    return requestData.compare(0, 5, "HEAD ") == 0;
+  }
+
   /// \brief Send an error response with specified status code and message
+  /// \param headRequest the response answers a HEAD request: the header section is
+  /// the one a GET would get (Content-Length included), the body is not sent.
   void sendErrorResponse(SessionId sid, int statusCode, const std::string &statusText,
-                         const std::string &body = "")
+                         const std::string &body = "", bool headRequest = false)
   {
     try
     {
@@ -1922,6 +1941,10 @@ protected:
       errorRes.setHeader("Content-Length", std::to_string(responseBody.size()));
       errorRes.setHeader("Connection", "close");
       errorRes.setHeader("Server", "Iora HttpServer");
+      if (headRequest)
+      {
+        errorRes.body.clear(); // RFC 9110 §9.3.2: no content in a response to HEAD
+      }
 
       auto errorResponseData = std::make_shared<std::string>(errorRes.toWireFormat());
 
